@@ -90,8 +90,9 @@ import os
 import subprocess
 
 
-def run_cases(cases, variants=None, workdir="/verif/.work/streams/shrink"):
+def run_cases(cases, variants=None, workdir=None):
     """cases: list of dicts {family,text,regs,memsize,mem}. Returns list of (ref, meta, results)."""
+    workdir = workdir or f"/verif/.work/streams/shrink_{os.getpid()}"
     os.makedirs(workdir, exist_ok=True)
     path = os.path.join(workdir, f"cases_{os.getpid()}.json")
     json.dump(cases, open(path, "w"))
@@ -231,6 +232,8 @@ def features(case, ref):
     path = [int(x) for x in ref.get("path", "").split(",") if x != ""]
     accs = [a for a in ref.get("accs", "").split(",") if a]
     f = {"loads": sum(1 for a in accs if a[0] == "L"), "stores": sum(1 for a in accs if a[0] == "S")}
+    f["st_text"] = any(m in ("sb", "sh", "sw") for m, _, _ in ins)
+    f["ld_text"] = any(m in ("lb", "lh", "lw") for m, _, _ in ins)
     f["err_text"] = ("nowhere" in text) or any(m in ("div", "rem") for m, _, _ in ins)
     f["branches"] = any(m in BR2 or m in ("beqz", "bnez", "j", "jal", "jalr") for m, _, _ in ins)
     f["cond_branches"] = sum(1 for i in path if i < len(ins) and (ins[i][0] in BR2 or ins[i][0] in ("beqz", "bnez")))
